@@ -337,6 +337,10 @@ func VerifyHashed(pubx, puby, e, r, s []byte) (bool, error) {
 	if err != nil {
 		return false, err
 	}
+	if result.IsInfinity() {
+		// the standard requires (x1, y1) = [s]G + [t]P to be a point; infinity has no x1
+		return false, errors.New("[s]G + [t]P is the point at infinity")
+	}
 
 	R := result.GetAffineX_Unsafe()
 	eInt.SetBytes(e)
